@@ -422,3 +422,23 @@ ADDENDA11 = {
 }
 for _k, _v in ADDENDA11.items():
     CLAIMS[_k]["text"] = CLAIMS[_k]["text"].rstrip() + " " + _v
+
+ADDENDA12 = {
+    "C01": "Round 13: shares PRED-ONCE; text is told from collections by isinstance; a wrapper is unwrapped only when it is a HashedValue.",
+    "C02": "Round 13: text is told from collections by isinstance (subclasses of str / bytes are text).",
+    "C03": "Round 13: shares SG-COHERENCE (the sweep at the start of every evaluation removes the dead wrapper itself).",
+    "C06": "Round 13: the parent table is looked for along the whole MRO.",
+    "C07": "Round 13: the translator reads a variable's values through its caching domain.",
+    "C08": "Round 13: the node a with-block writes to is fixed when the block is entered.",
+    "C09": "Round 13: the constraint given to an() reaches the quantifier unchanged.",
+    "C11": "Round 13: the quantified pattern factories set the flag their name says.",
+    "C12": "Round 13: the variables of a call include the variables of its arguments, recursively.",
+    "C13": "Round 13: shares HV-IDENT.",
+    "C15": "Round 13: shares PD-ALIAS.",
+    "C16": "Round 13: shares IDKEY.",
+    "C17": "Round 13: the parameter of a generic base is found for subclasses of the parametrised class.",
+    "C19": "Round 13: resolving a tag consults the import system every time.",
+    "C20": "Round 13: no caught exception is stored on an object the library keeps.",
+}
+for _k, _v in ADDENDA12.items():
+    CLAIMS[_k]["text"] = CLAIMS[_k]["text"].rstrip() + " " + _v
